@@ -127,4 +127,47 @@ theorem unrewritten_override_block_breaks_wiring :
         (fun x => (readBack x).refs.map (·.map String.ofList)) = [some ["stage0.A0:ref"], some ["stage0.A1:ref"]] := by
   decide
 
+/-! ## NOT the code: a wider path class for the aggregator
+
+Were a path segment "anything up to the next white space, `/`, `,` or quote" (instead of a run of `[\w.*]`), the
+shell punctuation glued to the path would be taken into the path and repeated after every copy; the modelled code
+(`Repl.aggScan`, theorem `C03.aggregated_reference_then_text`) keeps it where the user wrote it. -/
+
+def isWidePathChar (c : Char) : Bool := !(isSpace c || c == '/' || c == ',' || c == '\'' || c == '"')
+
+def pathLenWide : Nat → S → Nat
+  | 0, _ => 0
+  | f + 1, '/' :: rest =>
+    let seg := rest.takeWhile isWidePathChar
+    if seg.isEmpty then 0 else 1 + seg.length + pathLenWide f (rest.drop seg.length)
+  | _ + 1, _ => 0
+
+def aggExpandWide (reps : List S) (after : S) : S × Nat :=
+  let pl := pathLenWide after.length after
+  if pl == 0 then (join [' '] reps, 0)
+  else
+    let path := after.take pl
+    let commas := (after.drop pl).takeWhile (· == ',')
+    if commas.isEmpty then (join [' '] (reps.map (· ++ path)), pl)
+    else (join [','] (reps.map (· ++ path ++ commas.drop 1)), pl + commas.length)
+
+def aggScanWide (keys : List (S × List S)) : Nat → Option Char → S → S
+  | _, _, [] => []
+  | k + 1, _, c :: s => aggScanWide keys k (some c) s
+  | 0, prev, c :: s =>
+    match (if leftOk prev then firstMatchAgg keys (c :: s) else none) with
+    | some kv =>
+      let e := aggExpandWide kv.2 ((c :: s).drop kv.1.length)
+      e.1 ++ aggScanWide keys (kv.1.length + e.2 - 1) (some c) s
+    | none => c :: aggScanWide keys 0 (some c) s
+
+def keysSim : List (S × List S) := [("A:ref".toList, ["stage0.A0:ref".toList, "stage0.A1:ref".toList])]
+
+theorem wide_path_class_swallows_shell_punctuation :
+    String.ofList (aggScanWide keysSim 0 none "$(cat A:ref/out/e.csv); sort A:ref/e.csv| uniq".toList) =
+      "$(cat stage0.A0:ref/out/e.csv); stage0.A1:ref/out/e.csv); sort stage0.A0:ref/e.csv| stage0.A1:ref/e.csv| uniq" ∧
+    String.ofList (aggScan keysSim 0 none "$(cat A:ref/out/e.csv); sort A:ref/e.csv| uniq".toList) =
+      "$(cat stage0.A0:ref/out/e.csv stage0.A1:ref/out/e.csv); sort stage0.A0:ref/e.csv stage0.A1:ref/e.csv| uniq" := by
+  decide
+
 end St4sd.C03.Witness
